@@ -395,10 +395,8 @@ def judge_c10(d, _=None):
 def role(name):
     if name == "main":
         return "main"
-    if name.startswith("dex-handler_0"):
-        return "ckpt"
-    if name.startswith("dex-handler_1"):
-        return "user"
+    if name.startswith("dex-handler"):
+        return "handler"
     if name.startswith("Thread-v"):
         return "timer"
     if name.startswith("ThreadPoolExecutor"):
@@ -415,7 +413,72 @@ def hang_signature(inv):
         r = role(t["name"])
         on = t.get("on")
         kind = on[1] if isinstance(on, (list, tuple)) and len(on) == 2 else str(on)
-        if kind in ("pool-idle",) or (r == "ckpt" and kind == "q-get") or r == "main":
+        if kind in ("pool-idle",) or (r == "handler" and kind == "q-get") or r == "main":
             continue
         parts.add(f"{r}:{kind}@{t.get('where')}")
     return "+".join(sorted(parts)) or "none"
+
+
+# ============================================================================= C06 (whole handler)
+FAULT_EXPECT = {"4xx": "raised", "5xx": "FAILED", "429": "FAILED", "token": "FAILED"}
+
+
+def judge_c06(d, _=None):
+    out = []
+    most = _most_paths(d.program["seq"], ())
+    for inv in d.invocations:
+        faults = [f for f in inv.get("faults", []) if "call" in f]
+        if not faults:
+            continue
+        f = faults[0]
+        tf, name = f["tick"], f["name"]
+        where = _fault_observer(d, inv, f)
+        later = [c["n"] for c in d.backend.calls if c["inv"] == inv["n"] and c["n"] > f["call"]]
+        if later:
+            V(out, "C06", "api-call-after-failure",
+              f"invocation {inv['n']}: checkpoint call {f['call']} failed ({name}) but calls {later} were still made",
+              shape=_shapeclass(d))
+        if inv["outcome"] == "hung":
+            V(out, "C06", "hang-after-failure",
+              f"invocation {inv['n']} of {d.program.get('name')} never ended after checkpoint call {f['call']} failed "
+              f"({name}): {inv['end']}; stuck: {hang_signature(inv)}", stuck=hang_signature(inv))
+            continue
+        if inv["outcome"] == "returned" and isinstance(inv.get("out"), dict):
+            st = inv["out"].get("Status")
+            if st in ("SUCCEEDED", "PENDING"):
+                V(out, "C06", f"reported-{st}-after-failure",
+                  f"invocation {inv['n']} of {d.program.get('name')} returned {st} although checkpoint call {f['call']} "
+                  f"failed ({name})", shape=_shapeclass(d))
+            elif FAULT_EXPECT[name] != "FAILED":
+                V(out, "C06", "misclassified", f"{name} checkpoint failure must raise for Lambda retry but the "
+                  f"invocation returned {st}", fault=name, got=str(st))
+        elif inv["outcome"] == "raised":
+            if FAULT_EXPECT[name] != "raised":
+                V(out, "C06", "misclassified", f"{name} checkpoint failure must return FAILED but the invocation "
+                  f"raised {inv['exc']['cls']}: {inv['exc']['msg'][:80]}", fault=name, got="raised:" + inv["exc"]["cls"])
+            elif inv["exc"]["cls"] != "CheckpointError":
+                V(out, "C06", "wrong-exception", f"retriable checkpoint failure surfaced as {inv['exc']['cls']}",
+                  got=inv["exc"]["cls"])
+        for o in d.world.obs:
+            if o["inv"] == inv["n"] and o["tick"] > tf and o["kind"] == "ret" and o["op"] != "create_callback":
+                if o["row_status"] not in TERMINAL:
+                    V(out, "C06", "outcome-delivered-after-failure",
+                      f"{o['op']} at {fmt_path(o['path'])} returned {o['r']} after the checkpoint failure although the "
+                      f"backend row is {o['row_status']}", op=o["op"])
+        for e in d.world.entries:
+            if e["inv"] == inv["n"] and e["tick"] > tf and e["path"] in most and e["status"] != "STARTED":
+                V(out, "C06", "at-most-once-entered-without-start-after-failure",
+                  f"at-most-once step {fmt_path(e['path'])} entered after the failure with backend row {e['status']}")
+    return out
+
+
+def _fault_observer(d, inv, f):
+    return None
+
+
+def _shapeclass(d):
+    n = d.program.get("name", "")
+    for k in ("par", "map", "child", "P", "M", "H"):
+        if k in n:
+            return "concurrent" if k in ("par", "map", "P", "M") else "child"
+    return "sequential"
